@@ -324,14 +324,14 @@ def run(rep: Report, tier: str):
     check_table(repo, rep)
     check_registered(repo, rep)
     check_floor_worlds(repo, rep, tier)
-    check_complete_view(repo, rep)
     from .c03 import check_body_chain
-
-    check_body_chain(repo, rep, RULE="C04.complete-view")  # an emitted import/call statement must reach the analysed Module
     from .c09 import check_memo
 
-    # the callee the analyses see is the one the VM calls only if memo traffic is mirrored exactly
-    check_memo(repo, rep, all_summaries(repo), RULE="C04.complete-view")
+    with rep.part("complete view (opcode summaries)"):  # undecided when a handler is outside the abstract interpreter's model
+        check_complete_view(repo, rep)
+        check_body_chain(repo, rep, RULE="C04.complete-view")  # an emitted import/call statement must reach the analysed Module
+        # the callee the analyses see is the one the VM calls only if memo traffic is mirrored exactly
+        check_memo(repo, rep, all_summaries(repo), RULE="C04.complete-view")
     check_dedupe(repo, rep)
 
 
